@@ -44,4 +44,5 @@ RefuseOutOfRange == (Done /\ c.op = "location") => (o.refused <=> (c.a < 0 \/ c.
 OverstepOnlyWhenAllowed == (Done /\ c.op = "step" /\ ~o.refused /\ c.a + c.b > Total(c.legs)) => c.over
 OffsetWithinLeg == (Done /\ ~o.refused /\ (c.op = "location" \/ c.a + c.b <= Total(c.legs))) => (o.off >= 0 /\ o.off <= c.legs[o.leg])
 TotalIsSumOfLegs == \A L \in LegSets : Total(L) = Cum(L, Len(L))
+
 =============================================================================
